@@ -1,6 +1,6 @@
 """C37 — llamactl never activates a profile the user did not pick in that environment.
 
-Operation sequences (environment add/switch/delete, profile create/select/update/delete, new CLI
+Operation sequences (environment add/switch/delete, profile create/select/update/rename/delete, new CLI
 process) are executed through the real EnvService / AuthService / ConfigManager against a private
 LLAMACTL_CONFIG_DIR; a reference model of the user's picks is checked after every operation.
 """
@@ -41,23 +41,34 @@ class C37(Prop):
         "none, project) = create_profile_from_token (the name is derived from the key, so the same names recur in every environment); "
         "oidc(user of 4) = create_or_update_profile_from_oidc (only where requires_auth); select / logout by index into the current "
         "environment's real profile listing or by name resolved with get_profile in the current environment (the CLI's precondition); "
-        "project / rekey / refresh = set_project / update_profile / refresh_to_db of the active profile; restart = new ConfigManager "
-        "over the same directory. Every profile operation uses EnvService.current_auth_service() as the CLI commands do. Sequences come "
-        "from five families (free; environment-op + profile-ops blocks; populate several environments with shared keys then churn; "
-        "default-env profile + added env + delete it while current; device-login, leave, return, re-login). Oracle (reference model: "
+        "project / rekey / refresh = set_project / update_profile / refresh_to_db of the active profile; update(environment = current "
+        "or an entry of the real listing of the other environments, profile = index into that environment's real profile listing or the "
+        "one named like the profile active here, value) = AuthService(cm, that environment).update_profile with a new api key and "
+        "project, name kept; rename(environment = one of the OTHER environments only, profile as for update, new name = one of the "
+        "recurring derived names, a fresh name, a name in use in the current environment's listing, or the name active here) = the same "
+        "update_profile call with the name changed (refused by the (name, api_url) key when taken there); restart = new ConfigManager "
+        "over the same directory. Every other profile operation uses EnvService.current_auth_service() as the CLI commands do. Sequences come "
+        "from six families (free; environment-op + profile-ops blocks; populate several environments with shared keys then churn; "
+        "default-env profile + added env + delete it while current; device-login, leave, return, re-login; environments populated with "
+        "different subsets of the keys, return to one, pick, then update/rename profiles of the other environments among the names in use). Oracle (reference model: "
         "known environments = seeded default + added - deleted, current environment, ids of profiles picked = created, selected or "
         "auto-selected, per environment and since the environment last became current), after every operation: (1) the current "
         "environment is a known environment or the built-in default; (2) AuthService.get_current_profile() is None, or belongs to the "
         "current environment and was picked while that environment was current, i.e. since it last became current (the code itself "
-        "discards the pick on every environment change made by switch/add). Non-trivial = at some operation the current environment "
+        "discards the pick on every environment change made by switch/add); (3) an update or rename of a profile of another environment "
+        "is not a selection or creation in the current environment, so no profile becomes active through it: afterwards the active "
+        "profile is None or the same profile as before (violation kind active_profile_changed_by_update_in_other_environment). "
+        "Non-trivial = at some operation the current environment "
         "changed (switch, add, or deletion of the current environment) while a profile was active and the newly current environment "
-        "holds a profile of the same name."
+        "holds a profile of the same name, or a profile of another environment was renamed away from the name active here to a name "
+        "that another profile of the current environment holds."
     )
     assumptions = [
         "operations are issued at service level in the order the CLI commands issue them (commands/auth.py, commands/env.py); click argument parsing, prompts and output are not executed",
         "network steps are left out: probe_environment/auto_update_env are replaced by their persisted effect (create_or_update_environment with generated requires_auth); api_key_id is never set, so AuthService.delete_profile makes no HTTP call",
         "PyJWT, truststore and cryptography.hazmat...rsa are import-only stand-ins under /verif/shims (needed only to import llama_agents.cli.auth.client); no token is decoded",
         "one CLI process at a time: no two operations interleave on the same config directory; `restart` models a new process (fresh ConfigManager, migrations re-run)",
+        "no repository caller renames a profile through update_profile (auth_service.py / commands/auth.py only change tokens, api keys and device_oidc); name-changing updates are generated only for profiles of non-current environments, where the statement is unambiguous (another environment's profile operations must not change which profile is active in the current one); name-preserving updates are generated for profiles of any environment",
         "'picked while that environment was current' is read as 'since that environment last became current' - the reading under which the repository's own clear-on-switch mechanism is the thing being checked; under the weaker reading 'at any earlier time' the separate violation kind active_profile_never_picked_in_env applies",
     ]
     budgets = {"quick": 1500, "thorough": 1500}
@@ -90,14 +101,15 @@ class C37(Prop):
         sel_idx = st.tuples(st.just("idx"), st.integers(0, 5))
         sel = st.one_of(sel_idx, sel_idx, sel_idx, st.tuples(st.just("name"), st.integers(0, 4)))
         token = st.tuples(st.just("token"), st.sampled_from([0, 0, 0, 1, 1, 2]), st.sampled_from([0, 0, 0, 1, 1, 2]))
-        # rename: which environment's profile (0 = the current one, 1..3 = an entry of the real listing of the OTHER environments),
-        # index into that environment's real profile listing, index of the new name (the recurring derived names + a fresh one)
-        # (4 = the profile there that is named like the profile active here - the "same name in different environments" shape),
-        # new name (0..5: the recurring derived names + a fresh one; 6..8: a name in use in the current environment's real listing;
-        # 9: the name the active-profile setting holds)
-        rename = st.tuples(
-            st.just("rename"), st.sampled_from([0, 1, 1, 2, 3]), st.sampled_from([0, 1, 2, 3, 4, 4]), st.sampled_from([0, 1, 1, 2, 3, 4, 5, 5, 6, 7, 8, 9])
-        )
+        # update = ConfigManager.update_profile that keeps the name (new api key + project): environment (0 = the current one, 1..3 =
+        # an entry of the real listing of the OTHER environments), profile (0..3 = index into that environment's real profile
+        # listing, 4 = the profile there that is named like the profile active here), value.
+        # rename = update_profile that changes the name, for profiles of NON-current environments only (1..3): environment, profile
+        # (as above), new name (0..5: the recurring derived names + a fresh one; 6..8: a name in use in the current environment's
+        # real listing; 9: the name of the profile active here)
+        which = st.sampled_from([0, 1, 2, 3, 4, 4])
+        update = st.tuples(st.just("update"), st.sampled_from([0, 0, 1, 1, 2, 3]), which, st.integers(0, 9))
+        rename = st.tuples(st.just("rename"), st.sampled_from([1, 1, 2, 3]), which, st.sampled_from([0, 1, 1, 2, 3, 4, 5, 5, 6, 7, 8, 9]))
         env_op = st.one_of(
             st.tuples(st.just("add_env"), url3, st.booleans()),
             st.tuples(st.just("switch"), url4, i3),
@@ -116,6 +128,7 @@ class C37(Prop):
             st.tuples(st.just("rekey"), st.integers(0, 9)),
             st.tuples(st.just("refresh"), st.integers(0, 9)),
             st.just(("restart",)),
+            update,
             rename,
             rename,
         )
@@ -159,20 +172,18 @@ class C37(Prop):
         )
         # renaming sequences aim at profile updates that change the name: two or three environments, each given profiles for its own
         # non-empty subset of the keys (so a name is held by several environments but not by all), come back to one of them, pick
-        # there, then rename profiles (of this or of another environment) among the names in use, then churn
+        # there, then update / rename profiles of the other environments among the names in use, then churn
         subset = st.lists(st.sampled_from([0, 1, 2]), min_size=1, max_size=3, unique=True)
         populate_uneven = st.tuples(st.permutations([0, 1, 2]), st.lists(st.tuples(st.booleans(), subset), min_size=2, max_size=3)).map(
             lambda t: [o for e, (auth, ks) in zip(t[0], t[1]) for o in [("add_env", e, auth)] + [("token", k, 0) for k in ks]]
         )
         back = st.tuples(st.just("switch"), st.sampled_from([0, 1, 2, 5, 6, 7]), st.sampled_from([0, 0, 1]))
-        rename_in_use = st.tuples(
-            st.just("rename"), st.sampled_from([0, 1, 1, 2, 2, 3]), st.sampled_from([0, 1, 2, 4, 4, 4]), st.sampled_from([1, 5, 6, 6, 6, 7, 7, 8, 9])
-        )
+        rename_in_use = st.tuples(st.just("rename"), st.sampled_from([1, 1, 2, 3]), st.sampled_from([0, 1, 2, 4, 4, 4]), st.sampled_from([1, 5, 6, 6, 6, 7, 7, 8, 9]))
         renaming = st.tuples(
             populate_uneven,
             back,
             st.lists(st.one_of(select, select, token), min_size=1, max_size=2),
-            st.lists(st.one_of(rename_in_use, rename_in_use, rename_in_use, rename, select), min_size=2, max_size=6),
+            st.lists(st.one_of(rename_in_use, rename_in_use, rename_in_use, rename, update, select), min_size=2, max_size=6),
             churn,
         ).map(lambda t: (t[0] + [t[1]] + t[2] + t[3] + t[4])[:30])
         return st.one_of(free, blocks, populated, populated, fallback, relogin, renaming, renaming, renaming).map(lambda ops: [list(o) for o in ops])
@@ -337,49 +348,59 @@ class C37(Prop):
                     if p is not None:
                         p.api_key = "rekeyed-%d" % op[1]
                         a.update_profile(p)
-                elif kind == "rename":
+                elif kind in ("update", "rename"):
+                    # ConfigManager.update_profile on a profile row of the current (update only) or of another environment, through an
+                    # AuthService bound to that environment.  update keeps the name (new api key + project, as the token
+                    # provisioning / refresh callers do); rename changes it and is generated for NON-current environments only.
                     cur_env = svc.get_current_environment()
-                    if op[1] == 0:
+                    if kind == "update" and op[1] == 0:
                         env = cur_env
-                    else:  # a profile of an environment that is not current (e.g. refreshed/edited by a command given that environment)
+                    else:
                         others = [e for e in svc.list_environments() if e.api_url != cur_env.api_url]
                         others = [e for e in others if svc.config_manager().list_profiles(e.api_url)] or others
                         env = others[(op[1] - 1) % len(others)] if others else None
                     ps = self.authmod.AuthService(svc.config_manager(), env).list_profiles() if env is not None else []
                     if not ps:
-                        labels.append("rename_nothing_listed")
+                        labels.append(kind + "_nothing_listed")
                     else:
                         a = self.authmod.AuthService(svc.config_manager(), env)
-                        target = ps[op[2] % len(ps)]
-                        if op[2] == 4 and prev_active is not None:
-                            target = a.get_profile(prev_active.name) or target
-                        here = svc.current_auth_service().list_profiles()
-                        pointer = svc.config_manager().get_settings_current_profile_name()
-                        if op[3] <= 5:
-                            new_name = self.RENAMES[op[3]]
-                        elif op[3] <= 8:  # a name in use here, preferably one the update can succeed with (free in the target's environment)
-                            taken = {q.name for q in ps}
-                            cand = [q.name for q in here if q.name not in taken] or [q.name for q in here]
-                            new_name = cand[(op[3] - 6) % len(cand)] if cand else self.RENAMES[5]
-                        else:
-                            new_name = pointer or self.RENAMES[5]
-                        old_name = target.name
                         other = env.api_url != cur_env.api_url
-                        where = "other_env" if other else "current_env"
-                        if new_name == old_name:
-                            labels.append("rename_same_name")
-                        elif a.get_profile(new_name) is not None:
-                            labels.append("rename_name_taken:" + where)
+                        target = ps[op[2] % len(ps)]
+                        if op[2] == 4 and prev_active is not None:  # the profile there that is named like the one active here
+                            target = a.get_profile(prev_active.name) or target
+                        if kind == "update":
+                            target.api_key = "updated-%d" % op[3]
+                            target.project_id = _PROJECTS[op[3] % 2]
+                            labels.append("update_keep_name:" + ("other_env" if other else "current_env"))
+                            if other and prev_active is not None and prev_active.name == target.name:
+                                labels.append("update_keep_name_other_env_same_name_active_here")
                         else:
-                            labels.append("rename:" + where)
-                            if other and prev_active is not None and prev_active.name == old_name:
-                                labels.append("rename_other_env_old_name_active_here")
-                                if svc.current_auth_service().get_profile(new_name) is not None:
-                                    rename_shape = True
-                                    labels.append("rename_other_env_old_name_active_here_new_name_listed_here")
-                            if not other and prev_active is not None and prev_active.id == target.id:
-                                labels.append("rename_active_profile")
-                        target.name = new_name
+                            if not other:
+                                raise HarnessError("rename resolved to the current environment")
+                            old_name = target.name
+                            if op[3] <= 5:
+                                new_name = self.RENAMES[op[3]]
+                            elif op[3] <= 8:  # a name in use here, preferably one the update can succeed with (free in the target's environment)
+                                here = svc.current_auth_service().list_profiles()
+                                taken = {q.name for q in ps}
+                                cand = [q.name for q in here if q.name not in taken] or [q.name for q in here]
+                                new_name = cand[(op[3] - 6) % len(cand)] if cand else self.RENAMES[5]
+                            else:  # the name of the profile active here
+                                new_name = prev_active.name if prev_active is not None else self.RENAMES[5]
+                            if new_name == old_name:
+                                labels.append("rename_same_name")
+                            elif a.get_profile(new_name) is not None:
+                                labels.append("rename_name_taken_there")
+                            else:
+                                labels.append("rename:other_env")
+                                if prev_active is not None and prev_active.name == new_name:
+                                    labels.append("rename_other_env_to_name_active_here")
+                                if prev_active is not None and prev_active.name == old_name:
+                                    labels.append("rename_other_env_old_name_active_here")
+                                    if svc.current_auth_service().get_profile(new_name) is not None:
+                                        rename_shape = True
+                                        labels.append("rename_other_env_old_name_active_here_new_name_listed_here")
+                            target.name = new_name
                         updated_other_env = other
                         try:
                             a.update_profile(target)
@@ -449,17 +470,19 @@ class C37(Prop):
                 if vk is not None and key not in reported:
                     reported.add(key)
                     r.v(vk, **attrs)
-            # (3) an update of another environment's profile is not a pick here: the active profile stays the one it was
+            # (3) an update of another environment's profile is not a pick here: no profile becomes active through it (becoming
+            # None is allowed by the property and is only counted)
             if updated_other_env and cur == prev_env:
                 before = prev_active.id if prev_active is not None else None
                 after = active.id if active is not None else None
-                if before != after and ("changed_by_other_env_update", kind) not in reported:
+                if before is not None and after is None:
+                    labels.append("other_env_update_deactivated_profile_here")
+                if after is not None and after != before and ("changed_by_other_env_update", kind) not in reported:
                     reported.add(("changed_by_other_env_update", kind))
                     r.v(
                         "active_profile_changed_by_update_in_other_environment",
                         after_op=kind,
                         was_active=(before is not None),
-                        now_active=(after is not None),
                         now_active_picked_since_env_became_current=(after in picked),
                     )
             prev_env, prev_active = cur, active
